@@ -84,6 +84,49 @@ def chk_sub(inp):
         return bad("low-frequency (sub-harmonic) part does not have zero mean", float(lo.mean()), 0.0)
 
 
+    # exact content of the low-frequency part: with the draws recorded, the screen must be
+    #   hi + lo - mean(lo),  lo(x,y) = sum over grids g=1..3 (spacing del_f_g = 1/(3^g N delta)) and the 8 non-DC points (i,j) of
+    #   Re[(A_g[i,j] + i B_g[i,j]) sqrt(PSD(f_g[i,j])) del_f_g exp(2 pi i (fx x + fy y))]
+    class Rec:
+        def __init__(self, seed): self.g, self.rec = numpy.random.default_rng(seed), []
+        def normal(self, loc=0, scale=1, size=None):
+            v = self.g.normal(loc, scale, size); self.rec.append(numpy.array(v)); return v
+
+    class Play:
+        def __init__(self, arrs): self.arrs = list(arrs)
+        def normal(self, loc=0, scale=1, size=None): return self.arrs.pop(0)
+    orig = numpy.random.default_rng
+    for (r0, N, delta, L0, l0) in ((0.15, 8, 0.05, 20., 0.01), (0.2, 12, 0.1, 3., 0.02), (0.1, 6, 0.25, 100., 0.3)):
+        rec = Rec(11)
+        try:
+            numpy.random.default_rng = lambda seed=None, rec=rec: seed if hasattr(seed, "normal") else rec
+            scr = aotools.ft_sh_phase_screen(r0, N, delta, L0, l0, seed=rec)
+            draws = list(rec.rec)
+            if len(draws) != 8 or draws[0].shape != (N, N) or draws[1].shape != (N, N) or any(d.shape != (3, 3) for d in draws[2:]):
+                return bad("ft_sh_phase_screen does not draw two N x N arrays followed by three pairs of 3 x 3 arrays from the generator it is given", [list(d.shape) for d in draws])
+            hi = aotools.ft_phase_screen(r0, N, delta, L0, l0, seed=Play(draws[:2]))
+        finally:
+            numpy.random.default_rng = orig
+        c = numpy.arange(-N / 2, N / 2) * delta
+        X, Y = numpy.meshgrid(c, c)
+        lo = numpy.zeros((N, N))
+        for gi in (1, 2, 3):
+            dfg = 1. / (3 ** gi * N * delta)
+            A_, B_ = draws[2 * gi], draws[2 * gi + 1]
+            for i in range(3):
+                for j in range(3):
+                    if i == 1 and j == 1:
+                        continue
+                    fx, fy = (j - 1) * dfg, (i - 1) * dfg
+                    w = numpy.sqrt(psd(numpy.sqrt(fx ** 2 + fy ** 2), r0, L0, l0)) * dfg
+                    ph = 2 * numpy.pi * (fx * X + fy * Y)
+                    lo += w * (A_[i, j] * numpy.cos(ph) - B_[i, j] * numpy.sin(ph))
+        want = hi + lo - lo.mean()
+        if not numpy.allclose(scr, want, rtol=1e-9, atol=1e-9 * abs(want).max()):
+            return bad("ft_sh_phase_screen(r0=%g, N=%d, delta=%g, L0=%g, l0=%g) is not the FFT screen plus the three sub-harmonic grids with weights sqrt(PSD) del_f_g (draws replayed)" % (r0, N, delta, L0, l0),
+                       float(abs(scr - want).max() / abs(want).max()), 0.0)
+
+
 one = lambda t, s: [{}]
 CLAUSES = {"spectrum": (chk_spectrum, one), "transform": (chk_spectrum, one), "subharmonics": (chk_sub, one)}
 if __name__ == "__main__":
